@@ -234,6 +234,9 @@ type world struct {
 	mu           sync.Mutex
 	clientClosed bool
 	closing      bool
+	loginJoined  chan struct{}
+	loginDone    chan struct{}
+	requests     map[string]proxy.ConnectionRequest // request objects created early and connected later
 	// login attempts the backends have not answered yet, and the maximum seen at a dial since the last resetMax:
 	// the backend-side view of "attempts in flight at the same time"
 	unanswered    int
@@ -286,7 +289,7 @@ func newWorld(p proto.Protocol, names []string, try []string, scripts map[string
 // login connects the fake client and performs the initial join (through the try list).  One pump goroutine plays
 // the client's part from the first packet on: login, (1.20.2+) every configuration phase — also a re-configuration
 // that a fallback during the initial join or a later switch starts — and play.
-func (w *world) login() error {
+func (w *world) loginBegin() error {
 	cl := w.rig.Connect(net.IPv4(1, 2, 3, 4))
 	w.client = cl
 	p := w.proto
@@ -326,19 +329,43 @@ func (w *world) login() error {
 		w.mu.Unlock()
 		close(done)
 	}()
+	w.loginJoined, w.loginDone = joined, done
+	return nil
+}
+
+// loginWait waits for the end of the initial join started by loginBegin.
+func (w *world) loginWait() error {
 	select {
-	case <-joined:
-	case <-done:
+	case <-w.loginJoined:
+	case <-w.loginDone:
 		return errors.New("disconnected during the initial join")
 	case <-time.After(20 * time.Second):
-		cl.Conn.Close()
+		w.client.Conn.Close()
 		return errors.New("initial join timed out")
 	}
-	w.player = w.rig.Proxy.PlayerByName("Tester")
-	if w.player == nil {
+	if !w.findPlayer() {
 		return errors.New("player not registered")
 	}
 	return nil
+}
+
+// findPlayer looks the player up in the proxy's registry (it is registered before the initial connect starts).
+func (w *world) findPlayer() bool {
+	for i := 0; i < 400 && w.player == nil; i++ {
+		if p := w.rig.Proxy.PlayerByName("Tester"); p != nil {
+			w.player = p
+			break
+		}
+		time.Sleep(5 * time.Millisecond)
+	}
+	return w.player != nil
+}
+
+func (w *world) login() error {
+	if err := w.loginBegin(); err != nil {
+		return err
+	}
+	return w.loginWait()
 }
 
 func statusName(r proxy.ConnectionResult, err error) string {
@@ -358,6 +385,32 @@ func statusName(r proxy.ConnectionResult, err error) string {
 		return "disconnected"
 	}
 	return "other"
+}
+
+// createRequest only CREATES the request object (its previousServer snapshot is taken now) and keeps it.
+func (w *world) createRequest(key, name string) bool {
+	srv := w.rig.Proxy.Server(name)
+	if srv == nil || w.player == nil {
+		return false
+	}
+	if w.requests == nil {
+		w.requests = map[string]proxy.ConnectionRequest{}
+	}
+	w.requests[key] = w.player.CreateConnectionRequest(srv)
+	return true
+}
+
+// connectKept calls Connect on a request object created earlier.
+func (w *world) connectKept(key string) string {
+	req := w.requests[key]
+	if req == nil {
+		return "norequest"
+	}
+	delete(w.requests, key)
+	ctx, cancel := context.WithTimeout(context.Background(), 15*time.Second)
+	defer cancel()
+	r, err := req.Connect(ctx)
+	return statusName(r, err)
 }
 
 // connect issues player.CreateConnectionRequest(server).Connect(ctx) and classifies the result.
